@@ -1,4 +1,5 @@
 import Shuttle.Lemmas.Inject
+import Shuttle.Lemmas.LangMono
 import Shuttle.Props.C06
 import Shuttle.Gen.PureStmts
 /-!
@@ -49,5 +50,34 @@ theorem C04_spec_route_events (look : LookKind → String → Option Val) (fns :
     (runKernel fuel ⟨injProg (C06.cfgOf look) fns, noLook⟩ name args).map (·.2) =
       (runKernel fuel ⟨fns, look⟩ name args).map (·.2) := by
   rw [C04_spec_route]
+
+/-- **"evaluating the source directly" is one partial function**: a successful run of the reference evaluator gives the
+same value and the same events with any larger fuel, so two successful runs of one kernel on the same arguments never
+differ (the event sequence every compilation route is compared with is well defined). -/
+theorem C04_source_semantics_deterministic (c : Ctx) (k k' : Nat) (name : String) (args : List Val)
+    (r r' : Val × List Event) (h : runKernel k c name args = .ok r) (h' : runKernel k' c name args = .ok r') : r = r' := by
+  unfold runKernel at h h'
+  split at h
+  · rename_i v e evs h1
+    split at h'
+    · rename_i v' e' evs' h1'
+      have := run_deterministic c k k' [] _ _ _ h1 h1'
+      simp only [Prod.mk.injEq, Res.val.injEq] at this
+      cases h; cases h'
+      simp [this.1, this.2.2]
+    · cases h'
+    · cases h'
+  · cases h
+  · cases h
+
+theorem C04_source_semantics_mono (c : Ctx) (k k' : Nat) (hk : k ≤ k') (name : String) (args : List Val)
+    (r : Val × List Event) (h : runKernel k c name args = .ok r) : runKernel k' c name args = .ok r := by
+  unfold runKernel at h ⊢
+  split at h
+  · rename_i v e evs h1
+    rw [run_mono c k k' hk [] _ _ h1]
+    exact h
+  · cases h
+  · cases h
 
 end Shuttle.Props.C04
